@@ -16,6 +16,12 @@ def run(tier, seed, res, lean, opts=None, pid='C02'):
     shards = 16 if tier == 'quick' else 64
     per = 60 if tier == 'quick' else 400
     outs = pmap(suite_bag.run_shard, [(seed * 977 + 13 * i + 1, per, opts or {}) for i in range(shards)])
+    if pid == 'C02':
+        # External layers: the stack exposes the wrapped object's properties and methods with the object's values
+        from .. import suite_external
+        ext = pmap(suite_external.run_shard, [(seed * 61 + i + 1, 4 if tier == 'quick' else 30) for i in range(16)])
+        for p in [p for o in ext for p in o[1] if p.get('kind') != 'collision'][:3]:
+            res.violations.append(Violation('c02-external', p['msg'][:400], {'suite': 'S-EXTERNAL', **p}))
     stats = merge_stats([o[0] for o in outs])
     oracle_bad = [b for o in outs for b in o[1]]
     model_bad = [b for o in outs for b in o[2]]
